@@ -354,7 +354,7 @@ impl Monitor for C01 {
         ]
     }
     fn rule(&self) -> &'static str {
-        "seeded random histories (plus 2 directed ones) of all cw20 execute variants against the real cw20-base entry points; after every call the monitor pages AllAccounts, sums Balance over it, compares with TokenInfo.total_supply and applies the per-operation delta rule. distinct = (operation kind, outcome ok/err/abort, amount class zero/<=u64/>u64, self-move?, supply==0?)"
+        "seeded random histories (plus 2 directed ones) of all cw20 execute variants against the real cw20-base entry points; after every call the monitor pages AllAccounts, sums Balance over it, compares with TokenInfo.total_supply and applies the per-operation delta rule. Three directed worlds hold 40+ sorted accounts with a contiguous run of 31-34 emptied ones; every seventh history upgrades the token in mid-life through the real migrate (old version strings, by-spender index stripped), half of those with 11-45 extra holders: supply and balances must survive. distinct = (operation kind, outcome ok/err/abort, amount class zero/<=u64/>u64, self-move?, supply==0?)"
     }
     fn assumptions(&self) -> Vec<&'static str> {
         vec![
